@@ -78,10 +78,34 @@ func headerString(h http.Header, skip string) string {
 
 // headTrial runs one handler program under GET and HEAD.
 func headTrial(prog []hv.Step) (class, obs, exp string, outcome string) {
-	r := NewRouter(RouterCfg{})
+	if class, obs, exp, outcome = headTrialOn(prog, false); class != "" {
+		return
+	}
+	c2, o2, e2, _ := headTrialOn(prog, true)
+	if c2 != "" {
+		return c2 + ":via-group", o2, e2, outcome
+	}
+	return
+}
+
+// headTrialOn runs the program under GET and HEAD, on the router itself or through a Group that dispatches to it.
+// An unrelated HEAD request whose handler writes a body is served first: nothing of it may be left behind.
+func headTrialOn(prog []hv.Step, viaGroup bool) (class, obs, exp string, outcome string) {
+	var r *Router
+	var srv http.Handler
+	if viaGroup {
+		grp := newGroup()
+		r = grp.New("r", nil)
+		srv = grp
+	} else {
+		r = NewRouter(RouterCfg{})
+		srv = r
+	}
 	r.Handle("/r", hv.Route("hp", prog...), nil, "GET")
-	g := hv.Serve(r, hv.Req{Method: "GET", Path: "/r"})
-	h := hv.Serve(r, hv.Req{Method: "HEAD", Path: "/r"})
+	r.Handle("/prime", hv.Route("hprime", hv.Step{Op: "Set", K: "X-Prime", V: "1"}, hv.Step{Op: "W", N: 3}, hv.Step{Op: "WH", N: 500}), nil, "GET")
+	hv.Serve(srv, hv.Req{Method: "HEAD", Path: "/prime"})
+	g := hv.Serve(srv, hv.Req{Method: "GET", Path: "/r"})
+	h := hv.Serve(srv, hv.Req{Method: "HEAD", Path: "/r"})
 	outcome = fmt.Sprintf("%d/%d/%s", g.Status, len(g.Body), h.Header.Get("Content-Length"))
 	if g.Paniced || h.Paniced {
 		return "panic", fmt.Sprintf("GET panic=%v HEAD panic=%v", g.Panic, h.Panic), "no panic", outcome
@@ -252,6 +276,9 @@ func c08Check(cfg RouterCfg, hist []Op, r *Router, t *ref.Table, c *explore.Chil
 				}
 			}
 		}
+	}
+	if got, want := RoutesString(RoutesOf(r)), RoutesString(ModelRoutes(t)); got != want {
+		rep("C08.routes", "routes-differ", "Routes()", got, want, hv.Req{})
 	}
 	// forbidden registrations change nothing
 	paths := []string{"/r", "/rs", "/"}
